@@ -548,15 +548,18 @@ class BlockUploadStream(io.RawIOBase):
         try:
             response = self.sdo_client.read_response()
         except SdoCommunicationError:
-            response = self._retransmit()
-        res_command, = struct.unpack_from("B", response)
-        seqno = res_command & 0x7F
-        if seqno == self._ackseq + 1:
-            self._ackseq = seqno
-        else:
-            # Wrong sequence number
+            # _retransmit() returns the next segment in sequence
             response = self._retransmit()
             res_command, = struct.unpack_from("B", response)
+        else:
+            res_command, = struct.unpack_from("B", response)
+            seqno = res_command & 0x7F
+            if seqno == self._ackseq + 1:
+                self._ackseq = seqno
+            else:
+                # Wrong sequence number
+                response = self._retransmit()
+                res_command, = struct.unpack_from("B", response)
         if self._ackseq >= self.blksize or res_command & NO_MORE_BLOCKS:
             self._ack_block()
         if res_command & NO_MORE_BLOCKS:
